@@ -104,7 +104,7 @@ def run_sx(H, tier, regions=(), max_paths=None, max_s=None, witnesses=None):
         core.ENG = None
         try:
             with H.native_setup():
-                return H.body(cinp)
+                return core.plain(H.body(cinp))
         finally:
             core.ENG = saved
 
@@ -253,6 +253,12 @@ def _worker(task):
         }
 
 
+def _plain(x):
+    from . import core
+
+    return core.plain(x)
+
+
 def load_known(pid):
     if not os.path.exists(KF_FILE):
         return []
@@ -296,7 +302,7 @@ def main(argv=None):
         still = False
         try:
             with H.native_setup():
-                nat = norm(H.body(k["cinp"]))
+                nat = norm(_plain(H.body(k["cinp"])))
             still = nat == norm(k["bad_obs"])
         except Exception as e:
             nat = "exception " + repr(e)
@@ -334,7 +340,7 @@ def main(argv=None):
     else:
         ctx = mp.get_context("spawn")
         with ctx.Pool(jobs, initializer=_worker_init, initargs=(modname,)) as pool:
-            cs = max(1, min(32, len(tasks) // (jobs * 8)))
+            cs = max(1, min(8, len(tasks) // (jobs * 16)))
             for r in pool.imap_unordered(_worker, tasks, chunksize=cs):
                 results.append(r)
     results.sort(key=lambda r: str(r.get("oid")))
@@ -343,6 +349,9 @@ def main(argv=None):
     viol = [r for r in results if r["status"] == "violated"]
     herr = [r for r in results if r["status"] == "harness-error"]
     os.makedirs(os.path.join(EVID, "replay"), exist_ok=True)
+    for fn in os.listdir(os.path.join(EVID, "replay")):
+        if fn.startswith(pid + "-"):
+            os.unlink(os.path.join(EVID, "replay", fn))
     lines = []
     for n, r in enumerate(viol):
         path = os.path.join(EVID, "replay", f"{pid}-{n}.json")
@@ -375,6 +384,8 @@ def main(argv=None):
         f"{pid} tier={tier} obligations={len(results)} {st} paths={sum(r.get('paths', 0) for r in results)} "
         f"queries={sum(r.get('queries', 0) for r in results)} solver_s={sum(r.get('solver_s', 0) for r in results):.1f} wall={wall:.1f}s"
     )
+    slow = sorted(results, key=lambda r: -r.get("wall_s", 0))[:3]
+    print("  slowest: " + "; ".join(f"{r['oid'][:80]} {r.get('wall_s', 0):.1f}s/{r.get('paths', 0)}p" for r in slow))
     inc = [r for r in results if r["status"] == "inconclusive"]
     reasons = {}
     for r in inc:
@@ -498,7 +509,7 @@ def replay(mod, pid, path):
     H = mod.harness(rec["ob"])
     try:
         with H.native_setup():
-            nat = norm(H.body(rec["cinp"]))
+            nat = norm(_plain(H.body(rec["cinp"])))
     except Exception as e:
         nat = {"native-exception": type(e).__name__ + ": " + str(e)[:200]}
     print("input   :", json.dumps(rec["cinp"]))
